@@ -123,11 +123,13 @@ Fixpoint c06_cmats (k d : nat) (qs : list Qc) : list (cmat QF) * list Qc :=
 Definition cfreeze (m n : nat) (A : cmat QF) : cmat QF := freeze (0%Qc, 0%Qc) m n A.
 
 (* the comp-basis HS matrix of one outcome, from the kernel output:
-   mode 0: S (2 d d) ; mode 1 (as coded) / 11 (docstring formula): w (d) ++ V (2 d d) *)
+   mode 0: S (2 d d) ; mode 1 (the code) / 10 (as coded BEFORE fix povm-generate-mprocess-mode1-eigenvectors) /
+   11 (docstring formula without grouping): w (d) ++ V (2 d d) *)
 Definition c06_cb (d : nat) (mode : Z) (qs : list Qc) : cmat QF :=
   if (mode =? 0)%Z then gm_mode0_cb QF d (c06_cmat d d qs)
   else let w := vec_of_list 0%Qc (firstn d qs) in let V := c06_cmat d d (skipn d qs) in
-       if (mode =? 1)%Z then gm_mode1_cb QF d w V else gm_mode1_cb_fixed QF d w V.
+       if (mode =? 1)%Z then gm_mode1_cb QF d w V
+       else if (mode =? 10)%Z then gm_mode1_cb_prefix QF d w V else gm_mode1_cb_doc QF d w V.
 (* c06.gm_cb : zs = [d; mode] ; qs = kernel output -> interleaved complex d^2 x d^2 *)
 Definition op_gm_cb : opfun := fun zs qs =>
   match zs with
